@@ -190,23 +190,80 @@ theorem no_timer_only_if_nothing_scheduled (S : Scheds) (s : State) (hr : Reach 
     (hpc : s.pc = .parked none) : ∀ e ∈ s.entries, e.next = 0 :=
   (reach_timerOK hr none hpc).2
 
-/-- `prompt_when_parked`: if the loop is parked on an unfired timer that was armed with a fresh
-`now` (`now` = clock at arming; always the case when the clock only moves while the loop is
-parked) and the clock is advanced to `t ≥ e.Next ≠ 0`, then that very advance fires the timer,
-and the wake-up it enables starts `e` for activation `e.Next` with `now = t` at clock `t`
-and sets `Prev = e.Next`, `Next = S sid t`. -/
+/-- `deadline_bounds`: the armed deadline is never before the least non-zero `Next` `m` and, for
+every entry `e` with a `Next`, at most `e.Next + (armedAt − now)`: the timer can be late only by
+the staleness of the loop variable `now` at arming (zero when `now` was fresh). -/
+theorem deadline_bounds (S : Scheds) (s : State) (hr : Reach S s) (tm : Timer)
+    (hpc : s.pc = .parked (some tm)) :
+    (∃ m ∈ s.entries, m.next ≠ 0 ∧ m.next ≤ tm.deadline ∧ ∀ x ∈ s.entries, x.next = 0 ∨ m.next ≤ x.next) ∧
+    ∀ e ∈ s.entries, e.next ≠ 0 → tm.deadline ≤ e.next + (tm.armedAt - s.now) := by
+  obtain ⟨_, _, hn, m, hm, hmnz, hmin, hd, _, _⟩ := reach_timerOK hr (some tm) hpc
+  refine ⟨⟨m, hm, hmnz, by omega, hmin⟩, ?_⟩
+  intro e he hnz
+  rcases hmin e he with h0 | hle
+  · exact absurd h0 hnz
+  · omega
+
+/-- `wake_starts_every_due_exactly_once`: in ANY reachable state in which the loop is parked and
+its timer has fired with value `v` (fresh or stale `now`, polite history or not), the wake-up is
+enabled and it starts every entry with `0 ≠ Next ≤ v` exactly once — one launch record
+(`run id sid Next v clock`), one launched job, `Prev := Next`, `Next := S sid v` — and touches no
+entry that is not due at `v` (no record, no job, entry unchanged). -/
+theorem wake_starts_every_due_exactly_once (S : Scheds) (s : State) (hr : Reach S s) (tm : Timer)
+    (v : Nat) (hpc : s.pc = .parked (some tm)) (hf : tm.fired = some v) :
+    ∃ s2 new launched, step S s .wake = some s2 ∧ s2.log = new ++ s.log ∧
+      s2.jobs = s.jobs ++ launched ∧ s2.now = v ∧
+      (∀ e ∈ s.entries, e.next ≠ 0 → e.next ≤ v →
+        new.filter (fun r => r.id == e.id) = [Rec.run e.id e.sid e.next v s.clock] ∧
+        launched.filter (fun j => j.eid == e.id) = [launchJob v e] ∧
+        ({ e with prev := e.next, next := S e.sid v } : Entry) ∈ s2.entries) ∧
+      (∀ e ∈ s.entries, ¬(e.next ≠ 0 ∧ e.next ≤ v) →
+        new.filter (fun r => r.id == e.id) = [] ∧ launched.filter (fun j => j.eid == e.id) = [] ∧
+        e ∈ s2.entries) := by
+  obtain ⟨hsorted, _⟩ := reach_timerOK hr (some tm) hpc
+  have hA := reach_invA hr
+  have hnd : ((wakeLoop S v s.entries).2.map (·.id)).Nodup :=
+    hA.nodup.sublist ((wakeLoop_ran_sublist S v s.entries).map _)
+  refine ⟨{ s with now := v, entries := (wakeLoop S v s.entries).1, pc := .arm,
+                   jobs := s.jobs ++ (wakeLoop S v s.entries).2.map (launchJob v),
+                   log := (wakeLoop S v s.entries).2.map (runRec v s.clock) ++ s.log },
+    _, _, by simp only [step, hpc, hf], rfl, rfl, rfl, ?_, ?_⟩
+  · intro e he hnz hle
+    have hran := wakeLoop_all_due (S := S) (v := v) hsorted e he hnz hle
+    exact ⟨filter_map_id_of_nodup (runRec v s.clock) (fun _ => rfl) hnd hran,
+      filter_launch_of_nodup v hnd hran, wakeLoop_updates hran⟩
+  · intro e he hnot
+    have hnone : ∀ x ∈ (wakeLoop S v s.entries).2, x.id ≠ e.id := by
+      intro x hx heq
+      obtain ⟨hxm, hxnz, hxle⟩ := wakeLoop_ran x hx
+      -- same id in a list without duplicate ids: same entry
+      have : x = e := by
+        have h1 := find_id_of_nodup hA.nodup hxm
+        have h2 := find_id_of_nodup hA.nodup he
+        rw [heq] at h1
+        rw [h1] at h2
+        exact Option.some.inj h2
+      subst this
+      exact hnot ⟨hxnz, hxle⟩
+    refine ⟨filter_map_id_none (runRec v s.clock) (fun _ => rfl) hnone, ?_, wakeLoop_keeps he hnot⟩
+    rw [List.filter_eq_nil_iff]
+    intro j hj
+    obtain ⟨x, hx, rfl⟩ := List.mem_map.1 hj
+    simpa [launchJob] using hnone x hx
+
+/-- `prompt_when_parked` (general: no freshness assumed): the loop is parked on an unfired timer
+in ANY reachable state; as soon as the clock is advanced to a `t` at or past the armed deadline
+(`deadline = armedAt + (m − now)`, bounded by `deadline_bounds`), that very advance fires the
+timer, and the wake-up it enables starts every entry `e` with `0 ≠ e.Next ≤ t` for activation
+`e.Next` with `now = t` at clock `t` and sets `Prev = e.Next`, `Next = S sid t`. -/
 theorem prompt_when_parked (S : Scheds) (s : State) (hr : Reach S s) (tm : Timer)
-    (hpc : s.pc = .parked (some tm)) (hunf : tm.fired = none) (hfresh : s.now = tm.armedAt)
+    (hpc : s.pc = .parked (some tm)) (hunf : tm.fired = none)
     (e : Entry) (he : e ∈ s.entries) (hnz : e.next ≠ 0) (t : Nat) (hclk : s.clock ≤ t)
-    (hdue : e.next ≤ t) :
+    (hdl : tm.deadline ≤ t) (hdue : e.next ≤ t) :
     ∃ s1 s2, step S s (.advance t) = some s1 ∧ step S s1 .wake = some s2 ∧
       runRec t t e ∈ s2.log ∧ launchJob t e ∈ s2.jobs ∧
       ({ e with prev := e.next, next := S e.sid t } : Entry) ∈ s2.entries := by
-  obtain ⟨hsorted, _, _, m, hm, hmnz, hmin, hd, _, _⟩ := reach_timerOK hr (some tm) hpc
-  have hdl : tm.deadline ≤ t := by
-    rcases hmin e he with h0 | hle
-    · exact absurd h0 hnz
-    · omega
+  obtain ⟨hsorted, _⟩ := reach_timerOK hr (some tm) hpc
   have htick : tm.tick t = { tm with fired := some t } := by
     unfold Timer.tick; simp [hunf, hdl]
   have hran := wakeLoop_all_due (S := S) (v := t) hsorted e he hnz hdue
@@ -223,17 +280,19 @@ theorem prompt_when_parked (S : Scheds) (s : State) (hr : Reach S s) (tm : Timer
 
 /-- `one_start_per_wake_when_jumping` — the statement's "once for every activation instant that
 the clock reaches after the entry was added (once per wake-up if the clock jumps over several)":
-the loop is parked on an unfired timer armed with a fresh `now`; the clock is advanced from `c`
-to `c'`, crossing `k ≥ 1` activation instants of entry `e` (`e.Next ≤ c'`; the crossed instants
-are `e.Next, S(e.Next), …`).  Then that advance fires the timer and at the wake-up it enables
+the loop is parked on an unfired timer (ANY reachable state, `now` fresh or stale); the clock is
+advanced from `c` to `c'` at or past the armed deadline, crossing `k ≥ 1` activation instants of
+entry `e` (`e.Next ≤ c'`; the crossed instants are `e.Next, S(e.Next), …`; with a fresh `now` the
+deadline is at most `e.Next`, see `one_start_per_wake_when_jumping_fresh`).  Then that advance
+fires the timer and at the wake-up it enables
 *exactly one* start of `e` is recorded — for the first crossed instant `e.Next`, with `now = c'`
 at clock `c'` — the entry's `Next` becomes `S sid c'` (zero or `> c'`, i.e. past every crossed
 instant) with `Prev = e.Next`, and in every continuation every later start of `e` is for an
 instant `> c'`: the other `k − 1` crossed instants are never started. -/
 theorem one_start_per_wake_when_jumping (S : Scheds) (hS : WB S) (s : State) (hr : Reach S s)
     (tm : Timer) (hpc : s.pc = .parked (some tm)) (hunf : tm.fired = none)
-    (hfresh : s.now = tm.armedAt) (e : Entry) (he : e ∈ s.entries) (hnz : e.next ≠ 0)
-    (c' : Nat) (hclk : s.clock ≤ c') (hdue : e.next ≤ c') :
+    (e : Entry) (he : e ∈ s.entries) (hnz : e.next ≠ 0)
+    (c' : Nat) (hclk : s.clock ≤ c') (hdl : tm.deadline ≤ c') (hdue : e.next ≤ c') :
     ∃ s1 s2 new, step S s (.advance c') = some s1 ∧ step S s1 .wake = some s2 ∧
       s2.log = new ++ s.log ∧
       new.filter (fun r => r.id == e.id) = [Rec.run e.id e.sid e.next c' c'] ∧
@@ -244,12 +303,8 @@ theorem one_start_per_wake_when_jumping (S : Scheds) (hS : WB S) (s : State) (hr
       ∀ (h : List Label) (s3 : State), runFrom S s2 h = some s3 →
         ∃ newer, s3.log = newer ++ s2.log ∧
           ∀ r ∈ newer, r.id = e.id → r.isRun = true → c' < r.act := by
-  obtain ⟨hsorted, _, _, m, hm, hmnz, hmin, hd, _, _⟩ := reach_timerOK hr (some tm) hpc
+  obtain ⟨hsorted, _⟩ := reach_timerOK hr (some tm) hpc
   have hA := reach_invA hr
-  have hdl : tm.deadline ≤ c' := by
-    rcases hmin e he with h0 | hle
-    · exact absurd h0 hnz
-    · omega
   have htick : tm.tick c' = { tm with fired := some c' } := by
     unfold Timer.tick; simp [hunf, hdl]
   have hran := wakeLoop_all_due (S := S) (v := c') hsorted e he hnz hdue
@@ -270,32 +325,7 @@ theorem one_start_per_wake_when_jumping (S : Scheds) (hS : WB S) (s : State) (hr
     refine ⟨by rw [hdrop], ?_⟩
     show ((s.jobs ++ (wakeLoop S c' s.entries).2.map (launchJob c')).drop s.jobs.length).filter _ = _
     rw [hdrop]
-    -- same argument as for the records, on the launched jobs
-    have : ∀ {l : List Entry}, (l.map (·.id)).Nodup → e ∈ l →
-        (l.map (launchJob c')).filter (fun j => j.eid == e.id) = [launchJob c' e] := by
-      intro l
-      induction l with
-      | nil => intro _ h; cases h
-      | cons x xs ih =>
-        intro hn hx
-        simp only [List.map_cons, List.nodup_cons] at hn
-        simp only [List.map_cons, List.filter_cons, launchJob]
-        rcases List.mem_cons.1 hx with rfl | hx'
-        · simp only [beq_self_eq_true, if_true]
-          congr 1
-          rw [List.filter_eq_nil_iff]
-          intro j hj
-          obtain ⟨y, hy, rfl⟩ := List.mem_map.1 hj
-          simp only [beq_iff_eq]
-          intro heq
-          exact hn.1 (heq ▸ List.mem_map_of_mem hy)
-        · have hne : (x.id == e.id) = false := by
-            simp only [beq_eq_false_iff_ne]
-            intro heq
-            exact hn.1 (heq ▸ List.mem_map_of_mem hx')
-          simp only [hne, Bool.false_eq_true, if_false]
-          exact ih hn.2 hx'
-    exact this hnd hran
+    exact filter_launch_of_nodup c' hnd hran
   · intro h s3 hrun
     have hr2 : Reach S _ := Reach.step _ (Reach.step _ hr hstep1) hstep2
     have hr3 := reach_runFrom hr2 h hrun
@@ -309,6 +339,85 @@ theorem one_start_per_wake_when_jumping (S : Scheds) (hS : WB S) (s : State) (hr
     intro r hrm hrid hrun'
     have := (chain_after hS hlast hc3 r hrm hrid).2 hrun'
     simpa using this
+
+/-- With a fresh `now` the deadline is at most `e.Next`: the old formulations follow. -/
+theorem prompt_when_parked_fresh (S : Scheds) (s : State) (hr : Reach S s) (tm : Timer)
+    (hpc : s.pc = .parked (some tm)) (hunf : tm.fired = none) (hfresh : s.now = tm.armedAt)
+    (e : Entry) (he : e ∈ s.entries) (hnz : e.next ≠ 0) (t : Nat) (hclk : s.clock ≤ t)
+    (hdue : e.next ≤ t) :
+    ∃ s1 s2, step S s (.advance t) = some s1 ∧ step S s1 .wake = some s2 ∧
+      runRec t t e ∈ s2.log ∧ launchJob t e ∈ s2.jobs ∧
+      ({ e with prev := e.next, next := S e.sid t } : Entry) ∈ s2.entries := by
+  have hb := (deadline_bounds S s hr tm hpc).2 e he hnz
+  exact prompt_when_parked S s hr tm hpc hunf e he hnz t hclk (by omega) hdue
+
+theorem one_start_per_wake_when_jumping_fresh (S : Scheds) (hS : WB S) (s : State) (hr : Reach S s)
+    (tm : Timer) (hpc : s.pc = .parked (some tm)) (hunf : tm.fired = none)
+    (hfresh : s.now = tm.armedAt) (e : Entry) (he : e ∈ s.entries) (hnz : e.next ≠ 0)
+    (c' : Nat) (hclk : s.clock ≤ c') (hdue : e.next ≤ c') :
+    ∃ s1 s2 new, step S s (.advance c') = some s1 ∧ step S s1 .wake = some s2 ∧
+      s2.log = new ++ s.log ∧
+      new.filter (fun r => r.id == e.id) = [Rec.run e.id e.sid e.next c' c'] := by
+  have hb := (deadline_bounds S s hr tm hpc).2 e he hnz
+  obtain ⟨s1, s2, new, h1, h2, h3, h4, _⟩ :=
+    one_start_per_wake_when_jumping S hS s hr tm hpc hunf e he hnz c' hclk (by omega) hdue
+  exact ⟨s1, s2, new, h1, h2, h3, h4⟩
+
+/-- `every_reached_activation_started` — the invariant form of "never skipped", for every history:
+in a reachable state of a running Cron, if the clock has reached the next activation of a live
+entry (`0 ≠ e.Next ≤ clock`, and `e.Next` is the chain element `S sid (basis of its last record)`
+by `entries_reports_used`) and that activation has not been started yet, then the scheduler is
+not idle: one of its internal steps (`boot`, `refresh`, `arm`, `wake`) is enabled — the start is
+on its way — OR the loop is parked on an unfired timer that was armed with a STALE `now`
+(`now < armedAt`): then the deadline lies at most `armedAt − now` after `e.Next`, and the start
+happens at the first advance that reaches it (`prompt_when_parked`). There is no third case: a
+reached activation is never silently dropped. -/
+theorem every_reached_activation_started (S : Scheds) (s : State) (hr : Reach S s)
+    (hrun : s.running = true) (e : Entry) (he : e ∈ s.entries) (hnz : e.next ≠ 0)
+    (hreached : e.next ≤ s.clock) :
+    (∃ l ∈ [Label.boot, .refresh, .arm, .wake], (step S s l).isSome = true) ∨
+    (∃ tm, s.pc = .parked (some tm) ∧ tm.fired = none ∧ s.clock < tm.deadline ∧
+      s.now < tm.armedAt ∧ tm.deadline ≤ e.next + (tm.armedAt - s.now)) := by
+  have hA := reach_invA hr
+  have hne : s.pc ≠ .off := hA.run_pc.1 hrun
+  cases hpc : s.pc with
+  | off => exact absurd hpc hne
+  | boot => left; exact ⟨.boot, by simp, by simp [step, hpc]⟩
+  | refresh p =>
+    left
+    refine ⟨.refresh, by simp, ?_⟩
+    cases p with
+    | none => simp [step, hpc]
+    | some q => obtain ⟨a, b⟩ := q; simp [step, hpc]
+  | arm => left; exact ⟨.arm, by simp, by simp [step, hpc]⟩
+  | parked tmo =>
+    cases tmo with
+    | none => exact absurd ((reach_timerOK hr none hpc).2 e he) hnz
+    | some tm =>
+      cases hf : tm.fired with
+      | some v => left; exact ⟨.wake, by simp, by simp [step, hpc, hf]⟩
+      | none =>
+        right
+        obtain ⟨_, _, hn, m, hm, hmnz, hmin, hd, hunf, _⟩ := reach_timerOK hr (some tm) hpc
+        have hlt := hunf hf
+        have hb := (deadline_bounds S s hr tm hpc).2 e he hnz
+        exact ⟨tm, rfl, hf, hlt, by omega, hb⟩
+
+/-- In a history where the clock moves only while the scheduler is idle (`polite`) the residual
+case does not exist: a reached, not yet started activation always has an enabled internal step,
+i.e. a parked-and-quiescent loop has started every activation the clock has reached. -/
+theorem never_skipped_when_polite (S : Scheds) (t0 : Nat) (h : List Label) (s : State)
+    (hp : polite S (init t0) h = true) (hrunFrom : runFrom S (init t0) h = some s)
+    (hrun : s.running = true) (e : Entry) (he : e ∈ s.entries) (hnz : e.next ≠ 0)
+    (hreached : e.next ≤ s.clock) :
+    ∃ l ∈ [Label.boot, .refresh, .arm, .wake], (step S s l).isSome = true := by
+  have hr : Reach S s := reach_iff_history.2 ⟨t0, h, hrunFrom⟩
+  rcases every_reached_activation_started S s hr hrun e he hnz hreached with hi | ⟨tm, hpc, _, _, hstale, _⟩
+  · exact hi
+  · have hS0 : Sync (init t0) := by simp [Sync, init]
+    have hSy := sync_runFrom h hS0 hp hrunFrom
+    simp only [Sync, hpc] at hSy
+    omega
 
 /-- a period-3 schedule; the advance 10 → 20 crosses the instants 12, 15, 18: one start (for 12),
 next activation 21, and a second advance that reaches no instant starts nothing -/
@@ -521,6 +630,35 @@ theorem entries_reports_used (S : Scheds) (s s' : State) (hr : Reach S s)
 theorem entries_prev_always (S : Scheds) (s : State) (hr : Reach S s) :
     ∀ e ∈ snapshotOf s, e.prev = lastRunAct e.id s.log :=
   (reach_invB hr).prev_ok
+
+/-- `entries_reports_exactly_live`: "Entries reports each live entry". For every history, what
+`Entries()` returns lists exactly the ids issued by `Schedule` (1, 2, 3 … in order of the calls)
+and not removed since (`specLive`: `add` issues `last + 1` and makes it live, `remove id` makes
+`id` not live, nothing else changes the set), each exactly once — whether the Cron is running
+(the snapshot is served by the loop) or stopped. -/
+theorem entries_reports_exactly_live (S : Scheds) (t0 : Nat) (h : List Label) (s s' : State)
+    (hrunFrom : runFrom S (init t0) h = some s) (hsnap : step S s .snapshot = some s') :
+    ((snapshotOf s).map (·.id)).Perm (specLive h).2 ∧ ((snapshotOf s).map (·.id)).Nodup ∧
+    s.nextID = (specLive h).1 := by
+  have hr : Reach S s := reach_iff_history.2 ⟨t0, h, hrunFrom⟩
+  have hA := reach_invA hr
+  have h0 : (liveIds (init t0)).Perm [] := by simp [liveIds, init]
+  obtain ⟨hid, hperm⟩ := live_runFrom h (Reach.init t0) h0 hrunFrom
+  obtain ⟨_, hp⟩ := step_snapshot_inv hsnap
+  have hpend : liveIds s = s.entries.map (·.id) := by
+    unfold liveIds
+    cases hrun : s.running with
+    | true =>
+      obtain ⟨tm, hpc⟩ := isParked_iff.1 (hp hrun)
+      simp [hpc]
+    | false =>
+      have : s.pc = .off := by have := hA.run_pc; simp [hrun] at this; exact this
+      simp [this]
+  rw [hpend] at hperm
+  exact ⟨hperm, hA.nodup, hid⟩
+
+example : specLive [.add 0, .add 1, .start, .boot, .arm, .add 0, .refresh, .arm, .remove 2, .refresh,
+    .arm, .snapshot] = (3, [1, 3]) := by decide
 
 /-- `restart_recomputes`: when a (re)started scheduler goroutine boots, every entry's `Next` is
 recomputed from the clock value read at that moment, `Prev` is kept. -/
